@@ -575,16 +575,21 @@ func checkC18(c *Ctx) {
 // judgeFault is the fail-stop oracle for a run with exactly one injected fault.
 func judgeFault(r *Run) []Finding {
 	var fs []Finding
-	if len(r.Scn.Faults) != 1 {
+	if len(r.Scn.Faults) < 1 {
 		return fs
 	}
-	f := r.Scn.Faults[0]
+	// a fault sequence: every fault but the last is garbage in the one message whose content the
+	// emulator ignores (it must carry on); the last one is the fault being judged
+	f := r.Scn.Faults[len(r.Scn.Faults)-1]
 	site := "unfired"
 	var firedAt, observedAt int64 = -1, -1
 	label := ""
 	for _, e := range r.Events {
 		switch e.Ev {
 		case "fault":
+			if e.K != f.K && f.Kind != "dial_fail" && f.Kind != "write_err" {
+				continue // an earlier, tolerated fault of the sequence
+			}
 			firedAt = e.T
 			label = e.Label
 		case "read":
@@ -612,7 +617,11 @@ func judgeFault(r *Run) []Finding {
 	}
 	site = fmt.Sprintf("%s/%s", f.Kind, label)
 	if f.Kind == "garbage" {
-		site = fmt.Sprintf("garbage:%s/%s", f.Class, label)
+		cls := f.Class
+		if strings.HasPrefix(cls, "cut:") {
+			cls = "cut" // one key per message, whatever the cut point (the replay keeps the exact one)
+		}
+		site = fmt.Sprintf("garbage:%s/%s", cls, label)
 		if strings.HasSuffix(label, "ConfigurationUpdateCommand") {
 			return fs // the statement exempts the one message after REGISTRATION COMPLETE
 		}
@@ -624,6 +633,8 @@ func judgeFault(r *Run) []Finding {
 		fs = addFinding(fs, "failstop.watchdog@"+site, "still running at the wall-clock watchdog after the fault", -1)
 	case r.Exit == 97:
 		fs = addFinding(fs, "failstop.hang@"+site, "the emulator blocked in Read forever after the fault", -1)
+	case r.Exit == 98:
+		fs = addFinding(fs, "failstop.spin@"+site, "the emulator keeps polling the association forever after the fault instead of terminating", -1)
 	case kind == "deadlock":
 		fs = addFinding(fs, "failstop.deadlock@"+site, "all goroutines asleep after the fault", -1)
 	case r.Exit == 0:
@@ -663,7 +674,7 @@ func checkC19(c *Ctx) {
 		seeds = 120
 	}
 	c.Level = "fault_enumeration"
-	c.Rule = "per seed: one fault-free baseline of the complete conversation (test mode: 2..4 UEs through all five procedures; every 3rd seed traffic mode), then one run per (downlink message index k) x {close_before, abort_before, garbage:choice, garbage:prefix, garbage:empty-container}, plus dial_fail and write_err at every uplink index; evaluation = one faulted run; distinct = distinct (fault kind, message label at which it was observed, how the process ended); non-trivial = the fault was observed by the emulator"
+	c.Rule = "per seed: one fault-free baseline of the complete conversation (test mode: 2..4 UEs through all five procedures; every 3rd seed traffic mode), then one run per (downlink message index k) x {close_before, abort_before, garbage:choice, garbage:prefix, garbage:empty-container, garbage:strict prefix at drawn cut points (thorough: every cut point for one seed in eight)}, plus dial_fail and write_err at uplink indices, plus fault sequences (garbage in the exempt CONFIGURATION UPDATE COMMAND, tolerated, followed by a fault at a later message); every 4th seed runs against a slow core so that faults land in the emulator's fixed sleeps; evaluation = one faulted run; distinct = distinct (fault kind, message label at which it was observed, how the process ended); non-trivial = the fault was observed by the emulator"
 	c.Assume = append(c.Assume, assumptionsWS...)
 	c.Assume = append(c.Assume, "garbage is restricted to octet strings every X.691 decoder must refuse (invalid CHOICE index, length exceeding the data); the message after REGISTRATION COMPLETE is exempt as the statement says; a fault in a message the emulator never reads is not judged")
 	root := kernel.New(c.Seed).Sub("c19")
@@ -676,6 +687,12 @@ func checkC19(c *Ctx) {
 		} else {
 			o = GenOpts{Profile: "c19", Mode: "test", MinReg: 2, MaxReg: 4, Sessions: true, MaxCount: 4, Latency: "nominal", ExplicitUEs: 4, OptIEs: true}
 		}
+		if i%4 == 3 {
+			// a slow core: replies and the shutdown arrive during the emulator's fixed sleeps instead of
+			// while it is blocked in Read, so some faults are met by a Write first
+			o.Latency = "slow"
+			o.Profile += "-slow"
+		}
 		base := Gen(root.Uint64(), o)
 		if o.Mode == "test" { // complete conversation: every procedure at least once
 			cfg := &base.Config
@@ -686,6 +703,8 @@ func checkC19(c *Ctx) {
 			}
 		}
 		var m, nw int
+		var dlLen []int
+		var cucIdx []int
 		c.Batch([]Job{{S: base, Rig: "ws", Judge: judge, Tag: "c19-baseline"}}, func(j Job, r *Run, fs []Finding) {
 			end := "banner"
 			if len(j.S.Args) == 0 {
@@ -698,6 +717,10 @@ func checkC19(c *Ctx) {
 			for _, e := range r.Events {
 				if e.Ev == "dl" {
 					m++
+					dlLen = append(dlLen, len(e.Hex)/2)
+					if strings.HasSuffix(e.Label, "ConfigurationUpdateCommand") {
+						cucIdx = append(cucIdx, e.K)
+					}
 				}
 				if e.Ev == "ul" {
 					nw++
@@ -716,6 +739,35 @@ func checkC19(c *Ctx) {
 			add(scn.Fault{Kind: "garbage", K: k, Class: "choice"})
 			add(scn.Fault{Kind: "garbage", K: k, Class: "prefix"})
 			add(scn.Fault{Kind: "garbage", K: k, Class: "empty-container"})
+			// strict prefixes of the genuine reply: two drawn cut points per message, every cut point
+			// in the thorough tier for one seed in eight
+			if n := dlLen[k]; n > 1 {
+				if c.Tier == "thorough" && i%8 == 0 {
+					for cut := 1; cut < n; cut++ {
+						add(scn.Fault{Kind: "garbage", K: k, Class: fmt.Sprint("cut:", cut)})
+					}
+				} else {
+					add(scn.Fault{Kind: "garbage", K: k, Class: fmt.Sprint("cut:", 1+root.Intn(n-1))})
+					add(scn.Fault{Kind: "garbage", K: k, Class: fmt.Sprint("cut:", n-1-root.Intn(min(n-1, 4)))})
+				}
+			}
+		}
+		// fault sequences: garbage in a CONFIGURATION UPDATE COMMAND (tolerated by the statement)
+		// followed by a fault at a later message
+		for ci, ck := range cucIdx {
+			if ci >= 2 && c.Tier != "thorough" {
+				break
+			}
+			for k := ck + 1; k < m; k++ {
+				if c.Tier != "thorough" && (k+ci+i)%3 != 0 {
+					continue
+				}
+				for _, f2 := range []scn.Fault{{Kind: "close_before", K: k}, {Kind: "garbage", K: k, Class: "choice"}, {Kind: "garbage", K: k, Class: "prefix"}} {
+					sq := cloneScn(base)
+					sq.Faults = []scn.Fault{{Kind: "garbage", K: ck, Class: []string{"choice", "prefix", "empty-container"}[(k+ci)%3]}, f2}
+					jobs = append(jobs, Job{S: sq, Rig: "ws", Judge: "ws-fault", Tag: "c19/sequence"})
+				}
+			}
 		}
 		add(scn.Fault{Kind: "dial_fail"})
 		for j := 0; j < nw; j++ {
@@ -724,12 +776,18 @@ func checkC19(c *Ctx) {
 			}
 		}
 		c.Batch(jobs, func(j Job, r *Run, fs []Finding) {
-			f := j.S.Faults[0]
+			f := j.S.Faults[len(j.S.Faults)-1]
+			if len(j.S.Faults) > 1 {
+				c.Probes["fault-sequences (tolerated garbage, then a fault)"]++
+			}
 			observed := false
 			label := ""
 			for _, e := range r.Events {
-				if e.Ev == "fault" {
+				if e.Ev == "fault" && (e.K == f.K || len(j.S.Faults) == 1) {
 					label = e.Label
+				}
+				if e.Ev == "ul-after-shutdown" {
+					c.Probes["shutdown-met-by-a-Write"]++
 				}
 				if (e.Ev == "read" && e.K == f.K && (e.Err != "" || f.Kind == "garbage")) || e.Ev == "ul-after-shutdown" {
 					observed = true
@@ -741,7 +799,11 @@ func checkC19(c *Ctx) {
 			if observed {
 				c.Probes["fault-observed-by-emulator"]++
 				kind, _ := crashSite(r.StderrText())
-				distinct[fmt.Sprintf("%s:%s|%s|exit=%d|%s", f.Kind, f.Class, label, r.Exit, kind)] = true
+				cls := f.Class
+				if strings.HasPrefix(cls, "cut:") {
+					cls = "cut"
+				}
+				distinct[fmt.Sprintf("%s:%s|%s|exit=%d|%s|%d", f.Kind, cls, label, r.Exit, kind, len(j.S.Faults))] = true
 			} else {
 				c.Probes["fault-in-message-never-read"]++
 			}
